@@ -34,3 +34,9 @@ Section DemuxOld.
   Definition demux_old_push : push (nat * A) :=
     mkpush (var_ready nx) (fun ia l => var_send nx (fst ia) (snd ia) l) var_fin_old.
 End DemuxOld.
+
+(* FlatMap / Flatten::poll_finalize BEFORE /repo commit cca62d2de0e: `ready!(self.poll_ready())`
+   was executed on every call, i.e. next.poll_ready was polled also after next.poll_finalize had
+   been called (fixed finding pipeline/flat_map-over-fanout/poll_ready-after-finalize-Done). *)
+Definition flat_map_old_push {A B} (nx : push B) (g : A -> list B) : push A :=
+  mkpush (@fm_ready B nx) (fm_send g) (@fm_fin_drain B nx).
